@@ -66,7 +66,7 @@ func main() {
 		fmt.Printf("flushes=%d rotates=%d ingested=%d\n", o.Flushes, o.Rotates, o.Ingested)
 		for i, q := range sc.Queries {
 			x := o.Obs[i]
-			fmt.Printf("%-40s ids=%v groups=%v err=%q dup=%v\n", q, x.Ids, x.Groups, x.Err, x.Dup)
+			fmt.Printf("%-40s ids=%v groups=%v err=%q dup=%v raw=%d pqs=%d\n", q, x.Ids, x.Groups, x.Err, x.Dup, x.Raw, x.Pqs)
 		}
 		return
 	}
